@@ -31,7 +31,7 @@ Transcription rules
   indices because of the final `a.cmp(&b)`, so every correct sort returns the same list).
 * `emit_instructions`' work loop has explicit fuel `3·|pairs| + 2` (each pair is expanded at most
   once: one `Cons` and two `Build`s per pair, plus the root; that the fuel suffices on the output of
-  `intern_tree` is not proved — an exhaustion would show up as `panic` on the SER stream).
+  `intern_tree` is proved: `Lemmas/Serde2026Emit.lean` `emit_build`, C20 `ser_total`).
 -/
 import ClvmModel.Intern
 import ClvmModel.Varint
